@@ -15,12 +15,14 @@ An *event* is a list  [D, ra, re, wa, wd, we, tbi, tbv]:
    ra,re per read port: address, enable (comb ports: enable is the constant 1, never driven)
    wa,wd,we  per write port: address, raw data bits, enable bit mask
    tbi   0, or 1-based row number written directly by the testbench with value tbv (API form) in this event
+The resets of the two domains are toggled at random between events and are NOT recorded (no effect allowed).
 All inputs are applied (each in its own ctx.set, *before* the clock event; only if they differ from the value
 currently held, so that the documented power-on defaults en=1 / 0 are exercised) and held.
 The recorded *step* is the event followed by  outs (data output of every read port) and rows (every row read
 with ctx.get(mem.data[i])), both sampled right after the event's rising edges (the clocks fall afterwards); values are the Python ints the simulator returns
 (negative for signed rows); aggregate rows are recorded by their bit pattern (data.Const.as_bits())."""
 import random
+import zlib
 
 from amaranth.hdl import Cat, ClockDomain, Module, unsigned, signed
 from amaranth.lib import data as _data
@@ -71,8 +73,11 @@ class Design:
         self.cfg = cfg
         m = Module()
         self.cd = {}
+        # domain resets exist (B's is asynchronous in half of the configurations) and are toggled by the driver, but
+        # are not part of the recorded events: memories have no reset, so the specification does not mention them
+        self.salt = zlib.crc32(repr(sorted(cfg.items())).encode())
         for d in DOMS:
-            self.cd[d] = ClockDomain(d)
+            self.cd[d] = ClockDomain(d, async_reset=(d == "B" and bool(self.salt & 1)))
             m.domains += self.cd[d]
         self.mem = mem = Memory(shape=shape_of(cfg), depth=cfg["depth"], init=cfg["init"])
         m.submodules.mem = mem
@@ -125,10 +130,17 @@ def run(cfg, events):
     signedw = cfg["w"] if cfg["signed"] else 0
     steps = []
 
+    rrng = random.Random(d.salt + len(events))
+    rst = {"A": 0, "B": 0}
+
     async def tb(ctx):
         held = default_inputs(cfg)
         for ev in events:
             D, ra, re, wa, wd, we, tbi, tbv = ev
+            if rrng.random() < 0.25:                     # an unrecorded reset change (own write, before the event)
+                dom = rrng.choice(DOMS)
+                rst[dom] ^= 1
+                ctx.set(d.cd[dom].rst, rst[dom])
             for k, p in enumerate(d.rps):
                 if ra[k] != held[0][k]:
                     ctx.set(p.addr, ra[k])
